@@ -807,7 +807,8 @@ def hexfmt_model(ck, drv, scratch):
 
 def find_by_address(t, a, strict):
     """independent reading of get_image_by_absolute_address: sub-images first, in order, each with the address relative to this image's origin;
-    strict=True is the documented meaning ('the image that contains the address': end address excluded), strict=False accepts the end address as well"""
+    strict=True is the documented meaning ('the image that contains the address': end address excluded); strict=False (end address accepted) is what the code
+    did before e6ec992, kept for reference only"""
     for c in t.sub_images:
         r = find_by_address(c, a - t.offset, strict)
         if r is not None:
@@ -868,8 +869,6 @@ def tree_ops(ck, drv):
             so.note(inp, cls="getaddr:" + ("valid" if valid else "invalid"))
             r = pyres(img.get_image_by_absolute_address, a)
             want = find_by_address(img, a, True)
-            lax = find_by_address(img, a, False)
-            fnd = "C16-address-one-past-end" if want is not lax else None   # the address is the end address of the image a lax search stops at
             if r[0] == "ok":
                 node = r[1]
                 pth = path_of(img, node)
@@ -878,10 +877,10 @@ def tree_ops(ck, drv):
                     continue
                 ab = next(a0 for n0, a0 in nodes if n0 is node)   # sum of the offsets down to the node (BinaryImage.absolute_address tests `if self.parent:`, i.e. len(parent) != 0)
                 so.expect(node is want, inp, "get_image_by_absolute_address does not return the (first, deepest) image that contains the address",
-                          (pth, ab, len(node)), None if want is None else (path_of(img, want), next(a0 for n0, a0 in nodes if n0 is want), len(want)), finding=fnd)
+                          (pth, ab, len(node)), None if want is None else (path_of(img, want), next(a0 for n0, a0 in nodes if n0 is want), len(want)))
                 reqs.append((inp, f"getaddr {a} {toks}", "ok:" + (",".join(map(str, pth)) if pth else "-") + f" {ab} {len(node)}"))
             else:
-                so.expect(r[0] == "E:spsdk" and want is None, inp, "get_image_by_absolute_address refuses an address some image contains (or raises a non-SPSDK error)", r, finding=fnd)
+                so.expect(r[0] == "E:spsdk" and want is None, inp, "get_image_by_absolute_address refuses an address some image contains (or raises a non-SPSDK error)", r)
                 reqs.append((inp, f"getaddr {a} {toks}", r[0]))
         # ---- update_offsets (on a fresh copy)
         im2 = build(t)
